@@ -282,6 +282,10 @@ class Tree:
     @classmethod
     def deserialize_mapper(cls, parent: Node, data: dict) -> str | object | None:
         """Used as default `mapper` argument for :meth:`load`."""
+        if "str" in data and len(data) <= 2:
+            # A plain str node that was stored as dict, because it has a
+            # custom `data_id`
+            return data["str"]
         raise NotImplementedError(
             f"Override this method or pass a mapper callback to evaluate {data}."
         )
